@@ -43,6 +43,21 @@ def gen_tables(keys, M, K, H, n, seed, exhaustive=False):
     return out[:n]
 
 
+def est_table(M, K):
+    """the documented estimate of distinct elements for X = 0..M set cells, int(-(M/K) ln(1 - X/M)), by 50-digit arithmetic (TLC has no
+    logarithm); -1 for X = M (documented: cannot estimate).  A value within 1e-9 of an integer would make the truncation undecidable here:
+    none of the modelled geometries has one (asserted)."""
+    from decimal import Decimal, getcontext
+
+    getcontext().prec = 50
+    out = [0]
+    for X in range(1, M):
+        exact = -(Decimal(M) / Decimal(K)) * (Decimal(1) - Decimal(X) / Decimal(M)).ln()
+        assert abs(exact - round(exact)) > Decimal("1e-9"), (M, K, X)
+        out.append(int(exact))
+    return out + [-1]
+
+
 def mc_module(p, tables):
     tabs = ", ".join("[" + ", ".join(f"{k} |-> {tlc.tla_val(list(v))}" for k, v in sorted(t.items())) + "]" for t in tables)
     return (
@@ -54,6 +69,7 @@ cTables == {{{tabs}}}
 cAmts == {tlc.tla_val(set(p['amts']))}
 cWhos == {tlc.tla_val(set(p['whos']))}
 cChannels == {tlc.tla_val(set(p.get('channels', ['bytes'])))}
+cEstTab == {tlc.tla_val(est_table(p['M'], p['K']))}
 ====
 """,
     )
@@ -87,6 +103,7 @@ PROPERTY SaturatedStays
   MaxReloads = {p.get('maxreloads', 1)}
   MaxAdopt = {p.get('maxadopt', 0 if p.get('patch_limits') else 1)}
   Queries = {"TRUE" if p.get('queries') else "FALSE"}
+  EstTab <- cEstTab
 INIT Init
 NEXT Next
 VIEW {"ViewH" if p.get("histview") else "View"}
@@ -197,11 +214,11 @@ class Ctx:
             return f.add(key, o[3]) if self.counting else f.add(key)
         if o[0] == "rem":
             key = self.rk(o[2])
-            if self.alt(o):
-                return f.remove_alt(f.hashes(key), o[3])
-            return f.remove(key, o[3])
+            r = f.remove_alt(f.hashes(key), o[3]) if self.alt(o) else f.remove(key, o[3])
+            if f.elements_added < 0:       # a removal from a union / intersection result took its (estimated) counter below zero: cannot be
+                self.negative = True       # exported any more (known finding D26)
+            return r
         if o[0] == "clear":
-            self.nbase[o[1]] = 0
             return f.clear()
         if o[0] == "chk":
             key = self.rk(o[2])
@@ -218,7 +235,6 @@ class Ctx:
             if getattr(f, "is_on_disk", False):
                 self.release({"x": f})
             objs[o[1]] = r
-            self.nbase[o[1]] = r.elements_added
             if r.elements_added < 0:       # the documented "cannot estimate: every cell is set" value; such a result cannot be exported (known finding D25)
                 self.sentinel = True
             return None
@@ -257,8 +273,8 @@ class Ctx:
 
     def build(self, table, hist):
         self.opno = 0
-        self.nbase = {"A": 0, "B": 0}      # counter of an adopted union / intersection result at adoption (an estimate)
         self.sentinel = False
+        self.negative = False
         hf = strategy_fn(self.strategy) if self.strategy else make_hash(table, size=self.M)
         if self.strategy == "fnv":
             hf = None  # the library default
@@ -291,7 +307,7 @@ class Ctx:
         except Exception as exc:  # noqa  a call of the history raised
             t.extra["skipped_history_raised"] = t.extra.get("skipped_history_raised", 0) + 1
             return
-        if self.sentinel:      # the history adopted a result whose counter is the -1 sentinel: its states cannot be observed through bytes()
+        if self.sentinel or self.negative:      # the history adopted a result whose counter is the -1 sentinel: its states cannot be observed through bytes()
             t.extra["skipped_history_unexportable_result"] = t.extra.get("skipped_history_unexportable_result", 0) + 1
             self.release(objs)
             return
@@ -351,6 +367,16 @@ class Ctx:
                         dict(sig, state="every_cell_set_counter_is_minus_one" if full else "ordinary"))
             if full:
                 return
+        if self.negative:
+            if t.focus == "C05":
+                try:
+                    bytes(f)
+                    exported = True
+                except Exception as exc:  # noqa
+                    exported = repr(exc)
+                t.check(exported is True, "C05", "C05.result_exportable", ENGINE, lambda: rp(raised=exported, elements_added=f.elements_added),
+                        dict(sig, state="counter_below_zero_after_removal_from_result"))
+            return
         obs = {"A": self.observe(A), "B": self.observe(B)}
         rp2 = lambda **kw: rp(observed=obs, ret=ret, **kw)  # noqa
         for who in ("A", "B"):
@@ -361,12 +387,14 @@ class Ctx:
             else:
                 miss = [k for k in self.keys if ex["out"][k] > 0 and not (ob["est"][k] and ob["in"][k])]
                 t.check(not miss, "C01", "C01.present", ENGINE, lambda: rp2(who=who, missing=miss), dict(sig, kind="disk" if objs[who].is_on_disk else "mem"))
-            want_n = ex["n"] + (self.nbase[who] if ex["nest"] else 0)
+            want_n = ex["n"]
             if not ex["sat"]:  # the counter's documented meaning is stated below saturation
                 t.check(ob["n"] == want_n, "C14", "C14.count.cbloom" if self.counting else "C14.count.bloom", ENGINE, lambda: rp2(who=who), sig)
             if self.counting:
                 t.check(ob["cells"] == ex["cells"], "C16", "C16.no_half_update", ENGINE, lambda: rp2(who=who), sig)
-            if ob["cells"] != ex["cells"] or (ob["n"] != want_n and not (ex["nest"] and ex["sat"])):
+            if ex["sat"]:      # a pinned counter: at the upper limit, or at 0 when removals exceed what started as an estimate of distinct keys
+                t.check(ob["n"] == want_n, "C16", "C16.total_pinned", ENGINE, lambda: rp2(who=who), sig)
+            if ob["cells"] != ex["cells"] or ob["n"] != want_n:
                 t.add_drift(ENGINE, {"table": table, "history": hist, "op": o, "who": who, "expected": ex, "observed": ob})
         if t.focus == "C19":
             # clear() = fresh, judged by what happens afterwards: a newly constructed filter fed only the calls made since the last clear()
